@@ -387,8 +387,15 @@ def judge(ctx, oracle):
                 why = 'value %r is not %s × %d' % (x.future_value, a[1], uv[unit])
         if why and sig not in reported:
             reported.add(sig)
+            try:   # the same text through the whole pipeline
+                from recognizers_date_time import recognize_datetime
+                import datetime
+                pipe = [(e.text, e.type_name, e.resolution) for e in recognize_datetime(s, C.cul, reference=datetime.datetime(2019, 6, 12, 10, 0, 0))]
+            except Exception as e:
+                pipe = 'raises %s' % type(e).__name__
             ctx.report('property', sig, '%s %r (%s): %s' % (C.cul, s, name, why),
-                       failing_input={'culture': C.cul, 'text': s, 'method': name, 'timex': x.timex, 'value': str(x.future_value)},
+                       failing_input={'culture': C.cul, 'query': s, 'method': name, 'timex': x.timex, 'value': str(x.future_value),
+                                      'recognize_datetime': pipe},
                        property_fails=True)
 
 
